@@ -26,6 +26,7 @@ fn slice_all<E: elf::endian::EndianParse>(bytes: &[u8], ops: &[OpRec], caps: Cap
 fn stream_all<E: elf::endian::EndianParse>(sc: &Scenario, caps: Caps) -> Vec<OpOut> {
     // align to the slice layout: index 0 = open, index i = op i (slice-only ops -> Err)
     let r = run_stream::<E>(sc, caps);
+    IO_EVENTS.with(|c| c.set(c.get() + r.total_events));
     let mut out = vec![
         OpOut {
             tag: Tag::Err,
@@ -39,6 +40,15 @@ fn stream_all<E: elf::endian::EndianParse>(sc: &Scenario, caps: Caps) -> Vec<OpO
         }
     }
     out
+}
+
+thread_local! {
+    /// I/O events delivered to the stream parser since the last `take_io_events()`
+    static IO_EVENTS: std::cell::Cell<u64> = std::cell::Cell::new(0);
+}
+
+fn take_io_events() -> u64 {
+    IO_EVENTS.with(|c| c.replace(0))
 }
 
 #[derive(Clone, Copy, Debug, PartialEq, Eq)]
@@ -380,6 +390,7 @@ pub fn run_image(
             }
         }
     }
+    rep.add("sim_time_io_events", take_io_events());
     C18Outcome { violation: None }
 }
 
